@@ -11,7 +11,11 @@
 (*                                                                         *)
 (* A value is a script of slots  D data | S sender | R receiver | M region *)
 (* | NR(inner): a receive, inside the Deserialize impl of this position, of*)
-(* a message whose value is the script `inner`.                            *)
+(* a message whose value is the script `inner` | NX: a receive, inside the *)
+(* Deserialize impl, of a message WITHOUT attachments whose bytes name     *)
+(* channel index 0 (a mismatched or corrupt payload, C16): that decode must*)
+(* fail without touching the enclosing message's attachments, and the      *)
+(* enclosing Deserialize impl goes on.                                     *)
 (***************************************************************************)
 EXTENDS Naturals, Sequences, FiniteSets, TLC
 
@@ -19,8 +23,10 @@ CONSTANTS MaxDepth, MaxLen,
           InitMode,     \* "all" | "random"
           ToVariant     \* "swap" : the tables are swapped back (the code)
                         \* "clear": the tables are cleared on exit (wrong on purpose)
+                        \* "noinstall": a message without attachments is decoded without installing its (empty)
+                        \*          lists, i.e. against whatever the tables hold (wrong on purpose)
 
-Basic == {[k |-> x, inner |-> <<>>] : x \in {"D", "S", "R", "M"}}
+Basic == {[k |-> x, inner |-> <<>>] : x \in {"D", "S", "R", "M", "NX"}}
 SeqsUpTo(S, n) == UNION {[1..k -> S] : k \in 0..n}
 RECURSIVE Scripts(_)
 Scripts(d) == IF d = 0 THEN SeqsUpTo(Basic, MaxLen)
@@ -28,7 +34,7 @@ Scripts(d) == IF d = 0 THEN SeqsUpTo(Basic, MaxLen)
 
 RECURSIVE RandScript(_), RandSeq(_, _)
 MkSlot(k, d) == IF k \in {"NR", "NR2"} THEN [k |-> "NR", inner |-> RandScript(d - 1)] ELSE [k |-> k, inner |-> <<>>]
-RandSlot(d) == MkSlot(RandomElement(IF d = 0 THEN {"D", "S", "R", "M"} ELSE {"D", "S", "R", "M", "NR", "NR2"}), d)
+RandSlot(d) == MkSlot(RandomElement(IF d = 0 THEN {"D", "S", "R", "M", "NX"} ELSE {"D", "S", "R", "M", "NX", "NR", "NR2"}), d)
 RandSeq(n, d) == IF n = 0 THEN <<>> ELSE Append(RandSeq(n - 1, d), RandSlot(d))
 RandScript(d) == RandSeq(RandomElement(0..MaxLen), d)
 
@@ -47,7 +53,7 @@ ChList(s, a) == LET o == Own(s, a) IN [p \in 1..Len(SelectSeq(o, LAMBDA x : x.k 
 ShmList(s, a) == LET o == Own(s, a) IN [p \in 1..Len(SelectSeq(o, LAMBDA x : x.k = "M")) |-> SelectSeq(o, LAMBDA x : x.k = "M")[p].att]
 
 Frame(s, path, a) == [todo |-> s, path |-> path, savedCh |-> tabCh, savedShm |-> tabShm, own |-> Own(s, a),
-                      got |-> <<>>, cpos |-> 0, mpos |-> 0, failed |-> FALSE, n |-> 0]
+                      got |-> <<>>, cpos |-> 0, mpos |-> 0, failed |-> FALSE, n |-> 0, bad |-> FALSE]
 
 Init == /\ script = <<>> /\ chosen = FALSE /\ stack = <<>> /\ tabCh = <<>> /\ tabShm = <<>>
         /\ nextAtt = 1 /\ done = <<>>
@@ -103,24 +109,37 @@ EnterNested ==
           /\ nextAtt' = nextAtt + Len(AttSlots(s))
     /\ UNCHANGED <<script, chosen, done>>
 
+\* a Deserialize impl receives a message without attachments whose bytes say "the sender at channel index 0"
+BadFrame(path) == [todo |-> <<[k |-> "S", inner |-> <<>>]>>, path |-> path, savedCh |-> tabCh, savedShm |-> tabShm,
+                   own |-> <<>>, got |-> <<>>, cpos |-> 0, mpos |-> 0, failed |-> FALSE, n |-> 0, bad |-> TRUE]
+EnterBad ==
+    /\ Ready /\ Head(Top.todo).k = "NX"
+    /\ stack' = Append(SetTop([Top EXCEPT !.todo = Tail(@), !.n = @ + 1]), BadFrame(Append(Top.path, Top.n + 1)))
+    /\ IF ToVariant = "noinstall" THEN UNCHANGED <<tabCh, tabShm>>      \* decoded against the enclosing message's lists
+       ELSE tabCh' = <<>> /\ tabShm' = <<>>
+    /\ UNCHANGED <<script, chosen, nextAtt, done>>
+
 \* to() returns: what was not taken is dropped with the message, the enclosing decode gets its tables back
 Leave ==
     /\ stack # <<>> /\ (Top.failed \/ Top.todo = <<>>)
     /\ LET f == Top
            rest == SubSeq(stack, 1, Len(stack) - 1)
-       IN /\ done' = Append(done, [path |-> f.path, own |-> f.own, got |-> f.got, ok |-> ~f.failed])
-          /\ IF ToVariant = "swap" THEN tabCh' = f.savedCh /\ tabShm' = f.savedShm
+       IN /\ done' = Append(done, [path |-> f.path, own |-> f.own, got |-> f.got, ok |-> ~f.failed, bad |-> f.bad])
+          /\ IF f.bad /\ ToVariant = "noinstall" THEN UNCHANGED <<tabCh, tabShm>>
+             ELSE IF ToVariant \in {"swap", "noinstall"} THEN tabCh' = f.savedCh /\ tabShm' = f.savedShm
              ELSE tabCh' = <<>> /\ tabShm' = <<>>
-          /\ stack' = IF rest = <<>> \/ ~f.failed THEN rest
+          /\ stack' = IF rest = <<>> \/ ~f.failed \/ f.bad THEN rest      \* the harness' impl swallows a bad nested receive
                       ELSE [rest EXCEPT ![Len(rest)] = [@ EXCEPT !.failed = TRUE]]   \* the inner error propagates
     /\ UNCHANGED <<script, chosen, nextAtt>>
 
-Next == Choose \/ ReadData \/ ReadChannel \/ ReadRegion \/ EnterNested \/ Leave
+Next == Choose \/ ReadData \/ ReadChannel \/ ReadRegion \/ EnterNested \/ EnterBad \/ Leave
 Spec == Init /\ [][Next]_vars /\ WF_vars(Next)
 
 Done == chosen /\ stack = <<>>
 \* C14: inner and outer message each arrive with exactly their own attachments, correctly placed
-SelfContained == \A j \in 1..Len(done) : done[j].ok /\ done[j].got = done[j].own
+SelfContained == \A j \in 1..Len(done) :
+                    IF done[j].bad THEN ~done[j].ok /\ done[j].got = <<>>      \* C16: an error, and nobody else's endpoint
+                    ELSE done[j].ok /\ done[j].got = done[j].own
 \* ... and between top-level calls the tables are empty again
 NothingRetained == Done => tabCh = <<>> /\ tabShm = <<>>
 Terminates == <>Done
